@@ -106,6 +106,58 @@ return ((conn.sqls, status, out), exp)
     return Obl('sqlite_identifier_from_query[%s]' % ident.encode('unicode_escape').decode(), src, timeout=timeout, meta={'query': q, 'bounds': '2x1 table, cells len <= 1'})
 
 
+# Sources that are not lists of lists of scalars: rows that are TUPLES (rows of a DB cursor, zip()), cells that are LISTS.
+# "Identical before and after" is decided on three levels: the list holds the very same row objects, every row has its type and
+# value, every (possibly mutable) cell has its value -- also after every produced record was overwritten in place
+# (cells themselves are shared by reference between input and output, legitimately, and are not touched by the harness).  Whether the query itself succeeds is not the subject (several fail on tuple rows).
+ODD_QUERIES = {
+    'a1,a2': 'select a1, a2', 'star': 'select *', 'order': 'select a2, a1 order by a1 desc', 'update': 'update set a2 = 7 where a1 == 1',
+    'join': 'select a1, b2 join b on a1 == b1', 'left-bstar': 'select a1, b.* left join b on a1 == b1', 'update-join': 'update set a2 = b2 join b on a1 == b1',
+    'distinct': 'select distinct a2', 'group': 'select a1, COUNT(*), MAX(a2) group by a1', 'except': 'select * except a1', 'unnest': 'select a1, unnest([a2, a2])',
+    'sum': 'select a1, SUM(a2) group by a1', 'sum-all': 'select SUM(a2)', 'min-max': 'select MIN(a2), MAX(a2)', 'array_agg': 'select ARRAY_AGG(a2)', 'any': 'select a1, ANY_VALUE(a2) group by a1',
+    'median': 'select MEDIAN(a2)', 'a2+': 'select a2 + a2, a1', 'update-cell': 'update set a1 = a2', 'order-cell': 'select a2 order by a2', 'distinct-count': 'select distinct count a1',
+    'avg': 'select AVG(a2)', 'variance': 'select a1, VARIANCE(a2) group by a1', 'join-cell': 'select b2, a2 join b on a1 == b1',
+}
+
+
+def _odd_rows_obl(qname, kind, timeout):
+    query = ODD_QUERIES[qname]
+    use_join = ' join ' in query
+    body = indent('''
+if KIND == 'tuple':
+    T = [(k0, v0), (k1, v1), (k2, v2)]
+    B = [(k3, v3), (k4, v4)]
+    shadow_t = [(k0, v0), (k1, v1), (k2, v2)]
+    shadow_b = [(k3, v3), (k4, v4)]
+else:
+    T = [[k0, [v0]], [k1, [v1, v0]], [k2, [v2]]]
+    B = [[k3, [v3]], [k4, [v4]]]
+    shadow_t = [[k0, [v0]], [k1, [v1, v0]], [k2, [v2]]]
+    shadow_b = [[k3, [v3]], [k4, [v4]]]
+rows_t = list(T)
+rows_b = list(B)
+out = []
+try:
+    rbql.query_table(QUERY, T, out, [], B if USE_JOIN else None)
+    status = 'ok'
+except Exception as e:
+    status = 'failed'
+for r in out:            # overwrite the produced RECORDS in place (cell objects are shared by reference, legitimately: they are not touched)
+    if isinstance(r, list):
+        for i in range(len(r)):
+            r[i] = 'MUT'
+        r.append('MUT')
+same_objects = len(T) == len(rows_t) and all(x is y for x, y in zip(T, rows_t)) and len(B) == len(rows_b) and all(x is y for x, y in zip(B, rows_b))
+same_types = all(type(x) is type(y) for x, y in zip(T, shadow_t)) and all(type(x) is type(y) for x, y in zip(B, shadow_b))
+return ((same_objects, same_types, T == shadow_t, B == shadow_b), (True, True, True, True))
+''')
+    params = [('k%d' % i, 'int') for i in range(5)] + [('v%d' % i, 'int') for i in range(5)]
+    pre = ['0 <= k%d < 2' % i for i in range(5)] + ['0 <= v%d < 3' % i for i in range(5)]
+    src = harness('QUERY = %r\nKIND = %r\nUSE_JOIN = %r\n' % (query, kind, use_join), params, pre, body)
+    return Obl('odd_sources[%s|%s]' % (kind, qname), src, timeout=timeout,
+               meta={'query': query, 'function': 'rbql.query_table', 'bounds': '3-row input / 2-row join table, rows are %s; keys in 0..1, values in 0..2; outcome of the query itself not compared' % ('tuples' if kind == 'tuple' else 'lists whose second cell is a list')})
+
+
 HOSTILE_IDENTS = ['t1', 'T_2', 't;DROP', 't--', 'a.b', 't"', "t'", 't(', '[t]', 't*', 'tä', 't;', 'sqlite_master', 't\\']
 
 
@@ -156,6 +208,11 @@ def obligations(tier, seed):
     obs.append(_src_obl(None, 'fail[update-div]', ['is', 'is'], timeout=t))
     obs.append(_src_obl(None, 'fail[strict]', ['ks', 'ks'], ['ks', 'ks'], krange=2, timeout=t))
     obs.append(_src_obl(None, 'fail[order-none]', ['ss', 's', 'ss'], timeout=t))
+    for qn in ODD_QUERIES:
+        for kind in ('tuple', 'listcell'):
+            if kind == 'tuple' and qn in ('avg', 'variance'):
+                continue   # float arithmetic over symbolic ints: never confirms (see C03)
+            obs.append(_odd_rows_obl(qn, kind, t))
     # (b) identifier clause
     for L in range(0, 5 if quick else 6):
         obs.append(_ident_obl(L, 'iterator', 120 if quick else 900))
